@@ -454,6 +454,43 @@ func scenarioC02(r *Run) {
 			}
 		}
 	}
+	// an application that patches the retained raw protected bytes of a
+	// decoded message in place (same slice, same length: a counter or a
+	// timestamp inside the bucket is brought up to date) and verifies again:
+	// the structure handed to the seam carries the bytes the message holds at
+	// the time of the call, not those of an earlier call
+	if t.Bool(1, 4, "c02.rawedit") {
+		if rc3, derr := r.Decode(spec.Kind, received); derr == nil {
+			if override != nil {
+				rc3.SetPayload(override)
+			}
+			var raw []byte
+			if rc3.MS != nil {
+				raw = rc3.MS.Headers.RawProtected
+			} else {
+				raw = rc3.M1.Headers.RawProtected
+			}
+			if it, e := refcbor.ParseOne(raw); e == nil && it.Major == refcbor.MBstr && !it.Indef && len(it.Data) > 0 {
+				first := acceptingVerifiers(pm, keysOf(spec))
+				r.VerifyLib(rc3, external, asVerifiers(first)...)
+				raw[len(raw)-1] ^= 1 << uint(t.Choose(8, "c02.rawedit.bit"))
+				r.Fired("app.edits-raw-protected-in-place")
+				edited := append([]byte{}, raw[len(raw)-len(it.Data):]...)
+				second := acceptingVerifiers(pm, keysOf(spec))
+				r.VerifyLib(rc3, external, asVerifiers(second)...)
+				for i, sv := range second {
+					for _, c := range sv.Calls {
+						r.Check()
+						if f, ok := tbsField(c.Content, 1); ok && !bytes.Equal(f, edited) {
+							r.Fail("verify-content-differs/"+spec.Kind.String()+"/after-in-place-edit-of-raw-protected",
+								"the raw protected bytes of a decoded message were changed in place (last octet) between two verifications; verifier %d was then handed a structure whose body_protected is %s, the message holds %s", i, hexShort(f), hexShort(edited))
+							return
+						}
+					}
+				}
+			}
+		}
+	}
 	// a relay that re-signs a received COSE_Sign: it decodes, empties the
 	// signature slots and signs again with its own keys.  What each signer is
 	// handed must be the Sig_structure of the message as it is emitted
